@@ -122,6 +122,125 @@ type wrapperCtx struct {
 	cl   *ssa.Function
 	i    *ssa.Parameter
 	cell map[string]*ssa.FreeVar // free var by name
+	// frames: local helper closures of Run the current view chain passes through → the call it was reached by
+	// (set by w.rootOfView; vector evaluation inside such a helper continues at that call site)
+	frames map[*ssa.Function]*ssa.Call
+}
+
+// closureTarget: the single closure a function value denotes when it is a closure literal or a load of a captured
+// cell that is assigned exactly once.
+func closureTarget(v ssa.Value) *ssa.Function {
+	var out *ssa.Function
+	for _, o := range origins(v) {
+		var mc *ssa.MakeClosure
+		switch x := o.(type) {
+		case *ssa.MakeClosure:
+			mc = x
+		case *ssa.UnOp:
+			if fv, ok := x.X.(*ssa.FreeVar); ok {
+				if a, ok := bindingOf(fv.Parent(), freeVarIndex(fv.Parent(), fv)).(*ssa.Alloc); ok {
+					if sv := singleStoreCell(a); sv != nil {
+						mc, _ = sv.(*ssa.MakeClosure)
+					}
+				}
+			} else if a, ok := x.X.(*ssa.Alloc); ok {
+				if sv := singleStoreCell(a); sv != nil {
+					mc, _ = sv.(*ssa.MakeClosure)
+				}
+			}
+		}
+		if mc == nil {
+			return nil
+		}
+		f, _ := mc.Fn.(*ssa.Function)
+		if f == nil || out != nil && out != f {
+			return nil
+		}
+		out = f
+	}
+	return out
+}
+
+// rootOfView (wrapper-aware): like rootOfView, and additionally follows calls of Run's local helper closures into
+// their returned view, mapping the helper's parameters back to the call's arguments.
+func (w *wrapperCtx) rootOfView(v ssa.Value) (root ssa.Value, slices []*ssa.Call, ok bool) {
+	w.frames = map[*ssa.Function]*ssa.Call{}
+	for depth := 0; depth < 80; depth++ {
+		v = stripConv(v)
+		switch x := v.(type) {
+		case *ssa.Call:
+			name := callName(x.Common())
+			recv := recvOf(x.Common())
+			if recv != nil && isNDType(recv.Type()) && viewMethods[name] {
+				if name == "Slice" {
+					slices = append(slices, x)
+				}
+				v = recv
+				continue
+			}
+			if !x.Common().IsInvoke() {
+				if f := closureTarget(x.Common().Value); f != nil && f.Blocks != nil && w.frames[f] == nil {
+					rets := returnsOf(f)
+					if len(rets) == 1 && len(rets[0].Results) == 1 && len(f.Params) == len(x.Common().Args) {
+						w.frames[f] = x
+						v = rets[0].Results[0]
+						continue
+					}
+				}
+			}
+			return v, slices, true
+		case *ssa.Parameter:
+			if call := w.frames[x.Parent()]; call != nil {
+				mapped := false
+				for i, prm := range x.Parent().Params {
+					if prm == x && i < len(call.Common().Args) {
+						v = call.Common().Args[i]
+						mapped = true
+					}
+				}
+				if mapped {
+					continue
+				}
+			}
+			return v, slices, true
+		case *ssa.Extract:
+			if c, ok := x.Tuple.(*ssa.Call); ok && x.Index == 0 {
+				v = c
+				continue
+			}
+			return v, slices, true
+		case *ssa.Phi:
+			return v, slices, false
+		default:
+			return v, slices, true
+		}
+	}
+	return v, slices, false
+}
+
+// argFor: a helper closure's parameter → the argument of the call the current view chain came through.
+func (w *wrapperCtx) argFor(v ssa.Value) ssa.Value {
+	for n := 0; n < 4; n++ {
+		prm, ok := stripConv(v).(*ssa.Parameter)
+		if !ok {
+			return v
+		}
+		call := w.frames[prm.Parent()]
+		if call == nil {
+			return v
+		}
+		mapped := false
+		for i, q := range prm.Parent().Params {
+			if q == prm && i < len(call.Common().Args) {
+				v = call.Common().Args[i]
+				mapped = true
+			}
+		}
+		if !mapped {
+			return v
+		}
+	}
+	return v
 }
 
 func newWrapperCtx(p *Program, r *Report, eff *Effects, m *Model) *wrapperCtx {
@@ -215,15 +334,27 @@ func (w *wrapperCtx) roleOfRoot(root ssa.Value) string {
 // isCellIndex: v is provably the closure's own cell number i.
 func (w *wrapperCtx) isI(v ssa.Value) bool {
 	for _, o := range origins(v) {
-		if o != ssa.Value(w.i) {
-			return false
+		if o != nil {
+			o = w.argFor(o)
+			if o != ssa.Value(w.i) {
+				if os := origins(o); len(os) == 1 && os[0] == ssa.Value(w.i) {
+					continue
+				}
+				return false
+			}
+			continue
 		}
+		return false
 	}
 	return true
 }
 
 // allocatedInClosure: the vector is created inside the closure (NewIndex call or literal).
 func (w *wrapperCtx) allocatedInClosure(vec ssa.Value) bool {
+	vec = w.argFor(vec)
+	if os := origins(vec); len(os) == 1 && os[0] != nil {
+		vec = os[0]
+	}
 	b := vecBase(vec)
 	switch x := b.(type) {
 	case *ssa.Alloc:
@@ -239,6 +370,48 @@ func (w *wrapperCtx) allocatedInClosure(vec ssa.Value) bool {
 // vecElem resolves element k of vec at instruction `at` to a description.
 // returns (values, ok). For vectors loaded from a captured cell the parent's stores are used.
 func (w *wrapperCtx) vecElem(vec ssa.Value, k int64, at ssa.Instruction) ([]ssa.Value, string) {
+	if call := w.frames[at.Parent()]; call != nil {
+		// `at` lies in a helper closure the current view chain passes through
+		f := at.Parent()
+		mapVals := func(vals []ssa.Value) []ssa.Value {
+			out := make([]ssa.Value, len(vals))
+			for i, v := range vals {
+				out[i] = v
+				if v != nil {
+					if prm, ok := stripConv(v).(*ssa.Parameter); ok && prm.Parent() == f {
+						out[i] = w.argFor(prm)
+					}
+				}
+			}
+			return out
+		}
+		if prm, ok := stripConv(vec).(*ssa.Parameter); ok && prm.Parent() == f {
+			vals, fresh, unk := vecElemAt(w.eff, prm, k, at)
+			if unk != "" {
+				return nil, unk
+			}
+			out := mapVals(vals)
+			if fresh {
+				// not assigned on some path inside the helper: the value it had at the call
+				more, unk := w.vecElem(w.argFor(prm), k, call)
+				if unk != "" {
+					return nil, unk
+				}
+				out = append(out, more...)
+			}
+			return out, ""
+		}
+		save := w.frames
+		w.frames = map[*ssa.Function]*ssa.Call{}
+		for fn, c := range save {
+			if fn != f {
+				w.frames[fn] = c
+			}
+		}
+		vals, unk := w.vecElem(vec, k, at)
+		w.frames = save
+		return mapVals(vals), unk
+	}
 	// captured shared vector: resolve in the parent at the go statement
 	if u, ok := vec.(*ssa.UnOp); ok && u.Op == token.MUL {
 		if _, ok := u.X.(*ssa.FreeVar); ok {
@@ -492,7 +665,7 @@ func (w *wrapperCtx) checkWriteFootprint() {
 			if !written {
 				continue
 			}
-			root, slices, ok := rootOfView(a)
+			root, slices, ok := w.rootOfView(a)
 			role := w.roleOfRoot(root)
 			if !ok {
 				w.r.Undecided("R04.2", fmt.Sprintf("%s:%s#arg%d", key, callName(c), ai), w.p.Pos(ins.Pos()), "written array reaches the call through a phi; view chain undecided")
@@ -563,15 +736,72 @@ func (w *wrapperCtx) checkWriteFootprint() {
 	}
 }
 
+// isFreshLocal: the array was created by the call that produced it (constructor, kernel result, pack function):
+// every value the callee can return is, at the root of its view chain, an allocation made in that call or the fresh
+// result of a further call. A helper that returns a view of something it was given or captured is not fresh.
 func isFreshLocal(root ssa.Value) bool {
-	switch x := stripConv(root).(type) {
-	case *ssa.Call:
-		return true // result of a function call (constructor, kernel, pack function)
-	case *ssa.Extract:
-		_, ok := x.Tuple.(*ssa.Call)
-		return ok
+	return freshValue(root, 0, map[*ssa.Function]bool{})
+}
+
+func freshValue(v ssa.Value, depth int, busy map[*ssa.Function]bool) bool {
+	if depth > 6 {
+		return false
 	}
-	return false
+	for _, o := range origins(v) {
+		if o == nil {
+			return false
+		}
+		r, _, ok := rootOfView(o)
+		if !ok {
+			return false
+		}
+		switch x := stripConv(r).(type) {
+		case *ssa.Alloc, *ssa.MakeSlice, *ssa.MakeMap:
+			continue
+		case *ssa.MakeInterface:
+			if !freshValue(x.X, depth+1, busy) {
+				return false
+			}
+		case *ssa.Extract:
+			c, ok := x.Tuple.(*ssa.Call)
+			if !ok || !freshCall(c, x.Index, depth, busy) {
+				return false
+			}
+		case *ssa.Call:
+			if !freshCall(x, 0, depth, busy) {
+				return false
+			}
+		default:
+			return false
+		}
+	}
+	return true
+}
+
+func freshCall(c *ssa.Call, res int, depth int, busy map[*ssa.Function]bool) bool {
+	if c.Common().IsInvoke() {
+		// constructors reached through an interface (Clone, NewArray…) are judged by name only when they are ND methods
+		n := c.Common().Method.Name()
+		return n == "Clone" || n == "Copy"
+	}
+	f := c.Common().StaticCallee()
+	if f == nil {
+		return false // a function value (helper closure): not known to be fresh
+	}
+	if f.Blocks == nil {
+		return !InModule(f) // external constructor (e.g. append-free stdlib); module functions without bodies do not exist
+	}
+	if busy[f] {
+		return true
+	}
+	busy[f] = true
+	defer delete(busy, f)
+	for _, ret := range returnsOf(f) {
+		if res >= len(ret.Results) || !freshValue(ret.Results[res], depth+1, busy) {
+			return false
+		}
+	}
+	return true
 }
 
 // oneRow: the array value has extent 1 along dim cd, provably.
@@ -991,7 +1221,7 @@ func (w *wrapperCtx) checkKernelArgs() {
 	// inputs
 	for k := range m.Inputs {
 		a := args[k]
-		root, slices, ok := rootOfView(a)
+		root, slices, ok := w.rootOfView(a)
 		okey := fmt.Sprintf("%s:input#%d", key, k)
 		if !ok || w.roleOfRoot(root) != "inputs" || len(slices) < 2 {
 			w.r.Fail("R04.5", okey, w.p.Pos(m.KernelCall.Pos()), fmt.Sprintf("kernel argument %d is not a view of Run's inputs", k))
@@ -1055,7 +1285,7 @@ func (w *wrapperCtx) checkKernelArgs() {
 		for k := range m.Outputs {
 			a := args[ob+k]
 			okey := fmt.Sprintf("%s:output#%d", key, k)
-			root, slices, ok := rootOfView(a)
+			root, slices, ok := w.rootOfView(a)
 			if !ok || w.roleOfRoot(root) != "outputs" || len(slices) != 1 {
 				w.r.Fail("R04.5", okey, w.p.Pos(m.KernelCall.Pos()), fmt.Sprintf("kernel argument %d is not a per-cell view of Run's outputs", ob+k))
 				continue
